@@ -7,3 +7,4 @@ import Properties.C19
 #print axioms Hive.C19.dropoff_reports
 #print axioms Hive.C19.run_odometer_energy
 #print axioms Hive.C19.run_entities
+#print axioms Hive.C19.step_pickup_waits
